@@ -806,7 +806,7 @@ class tzfile(_tzinfo):
         timestamp = _datetime_to_timestamp(dt)
         tti = self._get_ttinfo(idx)
 
-        if idx is None or idx <= 0:
+        if idx is None or idx < 0:
             return False
 
         od = self._get_ttinfo(idx - 1).offset - tti.offset
@@ -819,7 +819,7 @@ class tzfile(_tzinfo):
 
         # If we have no transitions, return the index
         _fold = self._fold(dt)
-        if idx is None or idx == 0:
+        if idx is None or idx < 0:
             return idx
 
         # If it's ambiguous and we're in a fold, shift to a different index.
